@@ -36,10 +36,12 @@ POOL.update(
         # the same reaction as E0 with the electron in its other spelling: one species, two names.  Equal for the
         # species-based modes (default, brief); the string modes compare names (documented caveat) and keep them apart
         "E2": (["H+", "e-"], ["H"], (-1.0, -1.0), "GAS_TWOBODY"),
+        # A3 with its bounds given as Python ints (as the API allows): the same window, the same reaction in every mode
+        "A8": (["H", "H", "e-"], ["H2", "e-"], (10, 300), "GAS_TWOBODY"),
     }
 )
-IDS2 = ["E0", "E1", "E2", "O0", "O1", "S0", "S1", "A0", "A3", "A7"]
-IDS = [k for k in POOL if k not in ("E0", "E1", "E2", "O0", "O1", "S0", "S1", "A7")]
+IDS2 = ["E0", "E1", "E2", "O0", "O1", "S0", "S1", "A0", "A3", "A7", "A8"]
+IDS = [k for k in POOL if k not in ("E0", "E1", "E2", "O0", "O1", "S0", "S1", "A7", "A8")]
 MODES = [None, "brief", "minimal", "short"]
 
 
